@@ -694,6 +694,142 @@ def weight_stream(rep, drv, rng, n, budget):
         check_circuit(rep, drv, wc, "weighted", budget, rng)
 
 
+def endo_circuit(rng, n, mixed):
+    """A random circuit qubit^n -> qubit^n: gates (and a pure scalar); if `mixed`, one
+    type-preserving mixed piece (discard and re-prepare, measure and encode, a mixed scalar)."""
+    qc, g = lib()
+    c = qc.Id(n)
+    pieces = []
+    for _ in range(rng.randint(1 if n else 0, 3)):
+        if n >= 2 and rng.random() < 0.3:
+            pieces.append(rng.choice([g.CX, g.CZ, g.SWAP]))
+        elif n >= 1:
+            k = rng.randrange(8)
+            pieces.append(rng.choice([g.H, g.X, g.Y, g.Z, g.S, g.T, g.S.dagger(),
+                                      g.Rx(k / 4), g.Rz(k / 4), g.Ry(rng.random())]))
+    if rng.random() < 0.4 or (n == 0 and not mixed):
+        pieces.append(g.scalar(rng.choice([0.5, 1j, -1, 1 + 1j, 0.5 - 0.5j])))
+    if n == 0 and rng.random() < 0.5:
+        pieces.append(g.Ket(rng.randrange(2)) >> g.Bra(rng.randrange(2)))
+    if mixed:
+        opts = [g.scalar(rng.choice([0.5, 2, 0.25 + 0.25j]), is_mixed=True)]
+        if n >= 1:
+            opts += [qc.Discard() >> qc.MixedState(), qc.Measure() >> qc.Encode(),
+                     qc.Measure(destructive=False) >> qc.Id(1) @ qc.Discard(qc.bit),
+                     qc.Discard() >> g.Ket(rng.randrange(2))]
+        else:
+            opts += [g.Ket(rng.randrange(2)) >> qc.Discard(), qc.MixedState() >> qc.Discard()]
+        pieces.insert(rng.randrange(len(pieces) + 1), rng.choice(opts))
+    for piece in pieces:
+        w = len(piece.dom)
+        off = rng.randrange(n - w + 1)
+        c = c >> qc.Id(off) @ piece @ qc.Id(n - w - off)
+    return c
+
+
+def same_value(x, y):
+    """Two evaluation results (Tensor / CQMap): same class, same type, same entries."""
+    return type(x) is type(y) and str(x.dom) == str(y.dom) and str(x.cod) == str(y.cod) \
+        and close(x.array, y.array)
+
+
+def show_value(x):
+    return "%s %s -> %s %s" % (type(x).__name__, getattr(x, "dom", "?"), getattr(x, "cod", "?"),
+                                np.round(np.asarray(getattr(x, "array", x)).reshape(-1), 5).tolist()[:12])
+
+
+def batch_sum_stream(rep, rng, n_cases):
+    """Batch evaluation `c0.eval(c1, ..., mixed=...)` is the list of the single evaluations, and
+    a formal sum evaluates to the sum of the evaluations of its terms: CQ maps as soon as
+    mixed=True is asked or one term is mixed (a mixture: the sum of the doubled maps, not the
+    doubled map of the sum of amplitudes), plain tensors for pure terms otherwise."""
+    qc, g = lib()
+    from discopy.quantum.cqmap import CQMap
+    for k in range(n_cases):
+        # ---- batch evaluation of unrelated circuits, pure and mixed ones together
+        kinds = [rng.choice(["pure", "pure", "tp", "general", "classical"])
+                 for _ in range(rng.choice([2, 2, 3]))]
+        if k % 2 == 0:
+            kinds[rng.randrange(len(kinds))] = "pure"
+        cs = []
+        for kind in kinds:
+            while True:
+                c = gen_circuit(rng, kind, rng.choice([1, 2, 2]), rng.randint(1, 4))
+                if not any(bad_encode(b) for b in c.boxes):
+                    break
+            cs.append(c)
+        for flag in (True, False):
+            case = dict(batch=[describe(c) for c in cs], mixed=flag)
+            rep.case("batch:" + repr(case), True)
+            rep.count("batch_eval:mixed=%s" % flag)
+            try:
+                singles = [c.eval(mixed=flag) for c in cs]
+            except Exception as exc:  # noqa
+                rep.fail("eval_raises:" + err_class(exc), case, repr(exc))
+                continue
+            try:
+                batch = cs[0].eval(*cs[1:], mixed=flag)
+            except Exception as exc:  # noqa
+                rep.fail("batch_eval_raises:" + err_class(exc), case, repr(exc))
+                continue
+            if not (isinstance(batch, list) and len(batch) == len(singles)
+                    and all(same_value(x, y) for x, y in zip(batch, singles))):
+                rep.fail("batch_eval_differs_from_single:mixed=%s" % flag, case,
+                         "c0.eval(c1, ..., mixed=%s) = %s; one by one: %s" % (
+                             flag, [show_value(x) for x in batch] if isinstance(batch, list)
+                             else show_value(batch), [show_value(x) for x in singles]))
+        # ---- formal sums of circuits of equal type
+        n = rng.choice([0, 1, 1, 2])
+        shape = ["pure", "mixed", "both"][k % 3]
+        m = rng.choice([2, 2, 3])
+        flags = {"pure": [False] * m, "mixed": [True] * m,
+                 "both": [True] + [False] * (m - 1)}[shape]
+        rng.shuffle(flags)
+        terms = [endo_circuit(rng, n, f) for f in flags]
+        total = terms[0]
+        for t in terms[1:]:
+            total = total + t
+        case = dict(sum=[describe(t) for t in terms], shape=shape)
+        rep.case("sum:" + repr(case), True)
+        rep.count("sum_eval:" + shape)
+        try:
+            cq = [t.eval(mixed=True) for t in terms]
+            plain = [t.eval() for t in terms]
+        except Exception as exc:  # noqa
+            rep.fail("eval_raises:" + err_class(exc), case, repr(exc))
+            continue
+        any_mixed = any(bool(t.is_mixed) for t in terms)
+        if shape == "pure" and not any_mixed:
+            # clause (a) on every term, so that the sum below is the sum of the doubled maps
+            for t, x, y in zip(terms, cq, plain):
+                if not close(x.array, doubled_of_pure(y)):
+                    rep.fail("pure_mixed_not_doubled", describe(t),
+                             "eval(mixed=True) is not conj(U) (x) U of eval(mixed=False)")
+        expect_cq = sum(np.asarray(x.array, dtype=complex) for x in cq)
+        for flag in (True, False):
+            try:
+                got = total.eval(mixed=flag)
+            except Exception as exc:  # noqa
+                rep.fail("sum_eval_raises:%s:%s" % (err_class(exc), shape), dict(case, mixed=flag),
+                         "(a + b).eval(mixed=%s) raises %r" % (flag, exc))
+                continue
+            if flag or any_mixed:
+                ok = isinstance(got, CQMap) and str(got.dom) == str(cq[0].dom) \
+                    and str(got.cod) == str(cq[0].cod) and close(got.array, expect_cq)
+                want = "the sum of the classical-quantum maps of the terms %s" % (
+                    np.round(expect_cq.reshape(-1), 5).tolist()[:12],)
+            else:
+                expect = sum(np.asarray(y.array, dtype=complex) for y in plain)
+                ok = not isinstance(got, CQMap) and type(got) is type(plain[0]) \
+                    and str(got.dom) == str(plain[0].dom) and str(got.cod) == str(plain[0].cod) \
+                    and close(got.array, expect)
+                want = "the sum of the pure evaluations %s" % (
+                    np.round(expect.reshape(-1), 5).tolist()[:12],)
+            if not ok:
+                rep.fail("sum_eval_is_not_the_sum:%s:mixed=%s" % (shape, flag), dict(case, mixed=flag),
+                         "(a + b).eval(mixed=%s) = %s, expected %s" % (flag, show_value(got), want))
+
+
 # ------------------------------------------------------------------ clause (b): Born rule, marginals, adjoints
 
 def born_stream(rep, rng, n_cases):
@@ -1002,7 +1138,10 @@ def run(tier, seed, replay=None):
         "behind random preparations next to a spectator wire), latemix (no mixed box; bits and qubits "
         "meet only on the codomain of the last layer or only on the domain), classical (bits and "
         "non-mixed classical gates incl. wire-less weights with values outside {0, 1}) and weighted "
-        "(a weight box placed anywhere in a circuit: linearity); plus a Born-rule stream (random pure states of 1-3 qubits, every "
+        "(a weight box placed anywhere in a circuit: linearity); batch evaluations c0.eval(c1, c2, "
+        "mixed=True/False) of 2-3 unrelated circuits (pure and mixed together) against the single "
+        "evaluations, and formal sums of 2-3 circuits qubit^n -> qubit^n (n = 0, 1, 2; pure terms "
+        "only / mixed only / both) against the sum of the evaluations of their terms; plus a Born-rule stream (random pure states of 1-3 qubits, every "
         "Measure variant, partial discards, all Encode/MixedState adjoints) and a CQMap expression "
         "stream (then/tensor/dagger/swap/measure/encode/discard/pure/classical/literals over "
         "dimensions 2 and 3, ~10% ill-typed compositions); non-trivial = circuit of >= 2 boxes of "
@@ -1037,6 +1176,7 @@ def run(tier, seed, replay=None):
     n_born = 4 if quick else 70
     n_variant_rounds = 1 if quick else 8
     n_late, n_weight, n_classical = (12, 6, 6) if quick else (160, 100, 100)
+    n_batch = 9 if quick else 150
     n_expr = 150 if quick else 2500
     budget = 3e5 if quick else 3e6
     rng = random.Random(seed)
@@ -1060,6 +1200,7 @@ def run(tier, seed, replay=None):
         for _ in range(n_classical):
             c = gen_circuit(sub, "classical", sub.choice([1, 2, 2, 3]), sub.randint(1, 6))
             check_circuit(rep, drv, c, "classical", budget, sub)
+        batch_sum_stream(rep, random.Random(rng.getrandbits(64)), n_batch)
         born_stream(rep, random.Random(rng.getrandbits(64)), n_born)
         cqexpr_stream(rep, drv, random.Random(rng.getrandbits(64)), n_expr)
     finally:
